@@ -10,6 +10,8 @@ def expected(case, op, dev_cfg=None):
     if name in ("shell", "exec_out", "streaming_shell", "root"):
         prefix = {"shell": b"shell:", "streaming_shell": b"shell:", "exec_out": b"exec:", "root": b"root:"}[name]
         dest = prefix + (op["cmd"].encode("utf8") if name != "root" else b"")
+        if any(dest.startswith(pre) for pre in (cfg.get("ignore_open") or ())):
+            return ("exc", "TIMEOUT")
         chunks = (cfg.get("services") or {}).get(dest)
         if chunks is None:
             chunks = cfg.get("default_service") or []
@@ -58,6 +60,10 @@ def compare(case, op, res, dev_cfg=None):
     """Violation if `res` (runner result dict) differs from the model's expectation."""
     kind, val = expected(case, op, dev_cfg)
     if kind == "exc":
+        if val == "TIMEOUT":
+            if res.get("exc") not in ("AdbTimeoutError", "TcpTimeoutException"):
+                return Violation("wrong-result", "op %r: expected a timeout error, got %r" % (_b(op), _b(res)))
+            return None
         if res.get("exc") != val:
             return Violation("wrong-result", "op %r: expected %s, got %r" % (_b(op), val, _b(res)))
         return None
